@@ -488,8 +488,17 @@ func (s *state) walkUseNode(node *parse.UseNode) error {
 	// Every alias names a block as the used template defines it; the aliases
 	// are looked up before any is added, so that the result does not depend
 	// on the order in which the map of aliases happens to be visited.
+	// The names are visited in a fixed order: which of two blocks imported
+	// under one name wins, and which of two missing blocks is reported, does
+	// not change from one execution to the next either.
+	origs := make([]string, 0, len(node.Aliases))
+	for orig := range node.Aliases {
+		origs = append(origs, orig)
+	}
+	sort.Strings(origs)
 	aliased := make(map[string]*parse.BlockNode, len(node.Aliases))
-	for orig, alias := range node.Aliases {
+	for _, orig := range origs {
+		alias := node.Aliases[orig]
 		v, ok := blocks[orig]
 		if !ok {
 			return errors.New("Unable to locate block with name \"" + orig + "\"")
